@@ -73,7 +73,7 @@ SPEC = {
                    "PdModel/Props/C17.lean", "PdModel/Spec/C17.lean", "PdModel/Driver/StorageLoad.lean"],
     "gen": {
         "quick": {"args": ["-n", "60", "-len", "30", "-big", "1"], "streams": 8},
-        "thorough": {"args": ["-n", "350", "-len", "50", "-big", "8", "-bg", "1"], "streams": 16},
+        "thorough": {"args": ["-n", "500", "-len", "50", "-big", "5", "-bg", "1"], "streams": 16},
     },
     "search": {"args": ["-n", "150", "-len", "40", "-big", "2"], "streams": 8},
     "nontrivial": nontrivial,
